@@ -538,6 +538,40 @@ fn gen_c09(rng: &mut Rng, thorough: bool, out: &mut Cases) {
         w.filter(&f);
         out.push(27, w);
     }
+    // hand-built processed configurations: any minimum level incl. Invalid(_)
+    for i in 0..n / 6 {
+        let mut o = msg_opts_for(rng, i);
+        o.target_total = None;
+        o.kind = Some(PKind::Verbose);
+        let mut m = gen_message(rng, &o);
+        if let Some(x) = &mut m.extended_header {
+            if !matches!(x.message_type, MessageType::NetworkTrace(_)) && i % 5 != 0 {
+                x.message_type = MessageType::Log(gen_log_level(rng));
+            }
+        }
+        let mut f = gen_filter(rng, Some(&m));
+        if i % 3 != 0 {
+            f.app_ids = None;
+            f.context_ids = None;
+            f.ecu_ids = None;
+        }
+        let mut w = W::new();
+        w.msg(&m);
+        w.filter(&f);
+        match rng.below(4) {
+            0 => w.n(0),
+            1 => {
+                w.n(1);
+                w.log_level(&LogLevel::Invalid(rng.next() as u8));
+            }
+            _ => {
+                w.n(1);
+                w.log_level(&gen_log_level(rng));
+            }
+        }
+        w.b(&gen_suffix(rng));
+        out.push(30, w);
+    }
 }
 
 pub fn gen_signal_type(rng: &mut Rng, allow_fp: bool) -> TypeInfo {
@@ -631,7 +665,18 @@ fn gen_c13(rng: &mut Rng, thorough: bool, out: &mut Cases) {
 fn gen_c15(rng: &mut Rng, thorough: bool, out: &mut Cases) {
     let n = if thorough { 200_000 } else { 12_000 };
     for i in 0..n {
-        let a = gen_arg(rng, if i % 50 == 0 { 65000 } else { 60 });
+        let mut a = gen_arg(rng, if i % 50 == 0 { 65000 } else { 60 });
+        if i % 6 == 1 {
+            // arguments OUTSIDE the well-formed domain: value of another kind, name/unit presence against the
+            // variable-info flag, fixed-point data on a plain kind (Argument::valid, the writer's fallback arms)
+            match rng.below(5) {
+                0 => a.value = gen_arg(rng, 12).value,
+                1 => a.name = None,
+                2 => a.unit = if a.unit.is_some() { None } else { Some("u".to_string()) },
+                3 => a.type_info.has_variable_info = !a.type_info.has_variable_info,
+                _ => a.type_info.kind = gen_kind(rng),
+            }
+        }
         let mut w = W::new();
         w.endian(if rng.bool() { Endianness::Big } else { Endianness::Little });
         w.arg(&a);
